@@ -27,11 +27,12 @@ import (
 	"time"
 
 	"github.com/cenkalti/rain/v2/internal/verif/vh"
+	"go.etcd.io/bbolt"
 	"github.com/cenkalti/rain/v2/torrent"
 )
 
 type Step struct {
-	Do   string `json:"do"`   // manual | in | pex | port | magnet | announce | stopstart | addtracker | sleep
+	Do   string `json:"do"`   // manual | in | pex | port | magnet | announce | stopstart | addtracker | sleep | stop | start | restart | remove | close | magnetrace
 	Peer string `json:"peer"` // out | man | in1 | in2
 	K    string `json:"k"`    // pex variant: a | d | ad
 	Ms   int    `json:"ms"`
@@ -48,6 +49,10 @@ type Scenario struct {
 	Pre      []Step `json:"pre"`     // magnet mode: steps run before the metadata is served
 	Steps    []Step `json:"steps"`
 	SettleMs int    `json:"settleMs"`
+	// state of the resume record from which a new session loads the torrent BEFORE the steps run (file mode):
+	// "" = no reload; "nobf" = added stopped, session restarted, then started (the record has no bitfield);
+	// "partial" = some pieces on disk, verified, restarted; "full" = complete on disk, restarted
+	Resume string `json:"resume"`
 	Seed     int64  `json:"seed"`
 }
 
@@ -323,6 +328,13 @@ type runner struct {
 	stubs    []*dhtStub
 	dhtSeen  chan struct{} // a KRPC query with the info-hash reached a stub
 	finished atomic.Bool
+	prov     *vh.MemProvider
+	tid      string
+	stopped  bool         // the torrent is stopped (step "stop", or added stopped)
+	gone     bool         // removed / session closed: only the handle is left
+	closed   bool         // r.sess is closed
+	full     bool         // the data is complete: the client does not dial
+	trkN     atomic.Int32 // announces (other than "stopped") seen by the tracker
 }
 
 // emit logs an event of THIS scenario; goroutines of a scenario that has ended (a tracker handler or a peer reader that is
@@ -476,6 +488,13 @@ func compact(a *net.TCPAddr) []byte {
 }
 
 func (r *runner) step(st Step) {
+	if r.gone && st.Do != "magnet" {
+		return // nothing but the handle is left
+	}
+	if r.stopped && st.Do != "magnet" && st.Do != "start" && st.Do != "restart" && st.Do != "remove" && st.Do != "close" && st.Do != "magnetrace" {
+		r.emit(vh.Ev{"ev": "skip", "what": "step-on-stopped-torrent", "do": st.Do})
+		return
+	}
 	switch st.Do {
 	case "manual":
 		r.emit(vh.Ev{"ev": "addpeer"})
@@ -552,28 +571,174 @@ func (r *runner) step(st Step) {
 		r.tr.Start()
 		r.waitPeer("out", 4*time.Second)
 	case "restart":
-		// close the session and open it again on the same database: the torrent is loaded from its resume record
-		id := r.tr.ID()
-		r.sess.Close()
+		r.restart()
+	case "stop":
+		r.tr.Stop()
+		hub.Wait(r.tr.ID(), 3*time.Second, func(s *torrent.VerifSnap) bool { return s.Status == "Stopped" })
 		r.emit(vh.Ev{"ev": "stop"})
 		r.mu.Lock()
 		r.peers = map[string]*speer{}
-		r.t1ID = ""
 		r.mu.Unlock()
-		r.emit(vh.Ev{"ev": "start"}) // the new session starts the loaded torrent by itself
-		sess, err := torrent.NewSession(r.cfg)
-		if err != nil {
-			panic(err)
+		r.stopped = true
+	case "start":
+		r.start()
+	case "remove", "close":
+		r.observe("final") // the last look at the live torrent: Stats() of a closed handle is the zero value
+		if st.Do == "remove" {
+			if err := r.sess.RemoveTorrent(r.tid, true); err != nil {
+				r.emit(vh.Ev{"ev": "skip", "what": "remove-error", "err": err.Error()})
+			}
+		} else {
+			r.sess.Close()
+			r.closed = true
 		}
-		r.sess = sess
-		r.tr = sess.GetTorrent(id)
-		if r.tr == nil {
-			r.emit(vh.Ev{"ev": "skip", "what": "torrent-not-loaded"})
-			panic("torrent not loaded after restart")
+		r.emit(vh.Ev{"ev": "gone", "how": st.Do})
+		r.gone = true
+	case "magnetrace":
+		// Magnet() from several goroutines while the torrent is being removed
+		r.observe("final")
+		var ok, bad atomic.Int32
+		var link atomic.Value
+		stop := make(chan struct{})
+		var wg sync.WaitGroup
+		for i := 0; i < 4; i++ {
+			wg.Add(1)
+			go func() {
+				defer wg.Done()
+				for {
+					select {
+					case <-stop:
+						return
+					default:
+					}
+					if l, err := r.tr.Magnet(); err != nil {
+						bad.Add(1)
+					} else {
+						ok.Add(1)
+						link.Store(l)
+					}
+				}
+			}()
 		}
-		r.waitPeer("out", 6*time.Second)
+		time.Sleep(2 * time.Millisecond)
+		if err := r.sess.RemoveTorrent(r.tid, true); err != nil {
+			r.emit(vh.Ev{"ev": "skip", "what": "remove-error", "err": err.Error()})
+		}
+		time.Sleep(10 * time.Millisecond)
+		close(stop)
+		wg.Wait()
+		r.emit(vh.Ev{"ev": "gone", "how": "remove-racing-magnet"})
+		r.gone = true
+		if n := bad.Load(); n > 0 {
+			r.emit(vh.Ev{"ev": "magnet", "err": 1, "n": int(n), "racing": 1})
+		}
+		if n := ok.Load(); n > 0 {
+			l, _ := link.Load().(string)
+			r.emit(vh.Ev{"ev": "magnet", "err": 0, "n": int(n), "racing": 1, "link": l})
+		}
 	case "sleep":
 		time.Sleep(time.Duration(st.Ms) * time.Millisecond)
+	}
+}
+
+// waitUp waits until the started torrent has met its environment again: the tracker's peer is connected (a complete
+// torrent does not dial: the tracker has seen a new announce).
+func (r *runner) waitUp(d time.Duration, n0 int32) bool {
+	if !r.full {
+		return r.waitPeer("out", d) != nil
+	}
+	dl := time.Now().Add(d)
+	for time.Now().Before(dl) {
+		if r.trkN.Load() > n0 {
+			return true
+		}
+		time.Sleep(5 * time.Millisecond)
+	}
+	return false
+}
+
+func (r *runner) start() {
+	n0 := r.trkN.Load()
+	r.emit(vh.Ev{"ev": "start"})
+	if err := r.tr.Start(); err != nil {
+		r.emit(vh.Ev{"ev": "skip", "what": "start-error", "err": err.Error()})
+	}
+	r.stopped = false
+	r.waitUp(4*time.Second, n0)
+}
+
+// newSession opens a session on r.cfg.  The DHT port was found free by binding and releasing it: another process of the
+// harness may have taken it since (the client's own DHT port is not part of any observation) - take another one.
+func (r *runner) newSession() (*torrent.Session, error) {
+	var err error
+	for i := 0; i < 8; i++ {
+		var sess *torrent.Session
+		sess, err = torrent.NewSession(r.cfg)
+		if err == nil {
+			return sess, nil
+		}
+		if !r.cfg.DHTEnabled || !strings.Contains(err.Error(), "address already in use") {
+			return nil, err
+		}
+		r.emit(vh.Ev{"ev": "note", "what": "dht-port-taken-retry"})
+		time.Sleep(20 * time.Millisecond)
+		if uc, e2 := net.ListenUDP("udp4", &net.UDPAddr{IP: net.ParseIP("127.0.0.1")}); e2 == nil {
+			r.cfg.DHTPort = uint16(uc.LocalAddr().(*net.UDPAddr).Port)
+			uc.Close()
+		}
+	}
+	return nil, err
+}
+
+// recordHasBitfield reads the torrent's resume record from the database (between two sessions).
+func (r *runner) recordHasBitfield() int {
+	db, err := bbolt.Open(r.cfg.Database, 0o600, &bbolt.Options{ReadOnly: true, Timeout: time.Second})
+	if err != nil {
+		return -1
+	}
+	defer db.Close()
+	has := -1
+	db.View(func(tx *bbolt.Tx) error {
+		tb := tx.Bucket([]byte("torrents"))
+		if tb == nil {
+			return nil
+		}
+		b := tb.Bucket([]byte(r.tid))
+		if b == nil {
+			return nil
+		}
+		has = b2i(len(b.Get([]byte("bitfield"))) > 0)
+		return nil
+	})
+	return has
+}
+
+// restart closes the session and opens it again on the same database: the torrent is loaded from its resume record
+// (started if it was started, stopped if it was stopped).
+func (r *runner) restart() {
+	n0 := r.trkN.Load()
+	r.sess.Close()
+	bf := r.recordHasBitfield()
+	r.emit(vh.Ev{"ev": "reload", "bf": bf, "stopped": b2i(r.stopped)})
+	r.mu.Lock()
+	r.peers = map[string]*speer{}
+	r.t1ID = ""
+	r.mu.Unlock()
+	if !r.stopped {
+		r.emit(vh.Ev{"ev": "start"}) // the new session starts the loaded torrent by itself
+	}
+	sess, err := r.newSession()
+	if err != nil {
+		panic(err)
+	}
+	r.sess = sess
+	r.tr = sess.GetTorrent(r.tid)
+	if r.tr == nil {
+		r.emit(vh.Ev{"ev": "skip", "what": "torrent-not-loaded"})
+		panic("torrent not loaded after restart")
+	}
+	if !r.stopped {
+		r.waitUp(6*time.Second, n0)
 	}
 }
 
@@ -706,6 +871,9 @@ func run(sc Scenario, dir string) {
 		r.mu.Unlock()
 		id, _ := hex.DecodeString(q.PeerID)
 		r.emit(vh.Ev{"ev": "trkreq", "event": q.Event, "n": q.N})
+		if q.Event != "stopped" {
+			defer r.trkN.Add(1)
+		}
 		r.identPeerID("trk", id)
 		r.emit(vh.Ev{"ev": "ident", "what": "ua", "where": "trk", "cls": identClass(q.UA, privUA, torrent.DefaultConfig.TrackerHTTPPrivateUserAgent), "val": q.UA})
 		if q.Event == "stopped" {
@@ -731,6 +899,7 @@ func run(sc Scenario, dir string) {
 	prov.Truth[""] = r.tor
 	prov.Quiet = true
 	cfg.CustomStorage = prov
+	r.prov = prov
 	cfg.PEXEnabled = sc.PEX
 	cfg.DHTEnabled = sc.DHT
 	cfg.DisableOutgoingEncryption = true
@@ -755,30 +924,67 @@ func run(sc Scenario, dir string) {
 	}
 	r.emit(vh.Ev{"ev": "init", "enc": sc.Enc, "pex": b2i(sc.PEX), "dht": b2i(sc.DHT), "mode": sc.Mode, "sibling": b2i(sc.Sibling), "dhtbit": b2i(sc.DHTBit),
 		"ih": hex.EncodeToString(r.tor.InfoHash[:])})
-	sess, err := torrent.NewSession(cfg)
+	r.cfg = cfg
+	sess, err := r.newSession()
 	if err != nil {
 		panic(err)
 	}
 	r.sess = sess
-	r.cfg = cfg
-	defer func() { r.sess.Close() }()
+	defer func() {
+		if !r.closed {
+			r.sess.Close()
+		}
+	}()
 	tid := fmt.Sprintf("c19t%d", sc.ID)
+	r.tid = tid
+	if sc.Mode != "magnet" {
+		switch sc.Resume {
+		case "full":
+			prov.Store(tid).Fill(r.tor)
+			r.full = true
+		case "partial": // the first two pieces are on the disk, the rest of the file is zero
+			d := make([]byte, len(r.tor.Data))
+			copy(d, r.tor.Data[:2*16384])
+			prov.Store(tid).Put(r.tor.StoragePath(0), d)
+		case "nobf":
+			r.stopped = true
+		}
+	} else {
+		sc.Resume = ""
+	}
 	magnetLink := "magnet:?xt=urn:btih:" + hex.EncodeToString(r.tor.InfoHash[:])
-	r.emit(vh.Ev{"ev": "start"})
+	if !r.stopped {
+		r.emit(vh.Ev{"ev": "start"})
+	}
 	if sc.Mode == "magnet" {
 		r.tr, err = sess.AddURI(magnetLink+"&tr="+trk.URL(), &torrent.AddTorrentOptions{ID: tid})
 	} else {
-		r.tr, err = sess.AddTorrent(bytes.NewReader(r.tor.Bytes), &torrent.AddTorrentOptions{ID: tid})
+		r.tr, err = sess.AddTorrent(bytes.NewReader(r.tor.Bytes), &torrent.AddTorrentOptions{ID: tid, Stopped: r.stopped})
 	}
 	if err != nil {
 		r.emit(vh.Ev{"ev": "adderr", "err": err.Error()})
 		r.emit(vh.Ev{"ev": "end"})
 		return
 	}
-	if r.waitPeer("out", 6*time.Second) == nil {
+	if sc.Resume == "nobf" {
+		// added stopped: nothing has run, the record has no bitfield; the next session loads it, then the user starts it
+		r.restart()
+		r.start()
+	}
+	if !r.waitUp(6*time.Second, 0) {
 		// the scripted environment did not come up (loaded machine): the scenario is not judged (no "end" line)
 		r.emit(vh.Ev{"ev": "skip", "what": "tracker-peer-not-dialled"})
 		return
+	}
+	if sc.Resume == "partial" || sc.Resume == "full" {
+		// verification has finished (the torrent dials / announces): the record gets its bitfield at once and at every
+		// ResumeWriteInterval (200 ms)
+		time.Sleep(60 * time.Millisecond)
+		r.restart()
+		if !r.waitUp(2*time.Second, 0) && !r.full {
+			r.emit(vh.Ev{"ev": "skip", "what": "tracker-peer-not-dialled-after-reload"})
+			return
+		}
 	}
 	if sc.Sibling {
 		// the tracker has seen T1 by now (its peer id is known): add the magnet link of the same info-hash, DHT only
@@ -834,7 +1040,9 @@ func run(sc Scenario, dir string) {
 		time.Sleep(time.Duration(settle) * time.Millisecond)
 	}
 	r.emit(vh.Ev{"ev": "settled"})
-	r.observe("final")
+	if !r.gone {
+		r.observe("final")
+	}
 	r.magnet()
 	r.emit(vh.Ev{"ev": "end"})
 	r.finished.Store(true)
